@@ -14,6 +14,9 @@ import (
 	"log"
 	"log/slog"
 	"os"
+	"runtime"
+	"sync/atomic"
+	"time"
 )
 
 type Profile struct {
@@ -22,6 +25,7 @@ type Profile struct {
 	Words          []string `json:"words"`            // read-words to instantiate the name class "readword" with
 	RoutesPerShape int      `json:"routes_per_shape"` // 0 = every concrete route of the shape
 	SkipSlow       bool     `json:"skip_slow"`        // do not run the 1 s profile/trace handlers with an accepted token
+	Log            bool     `json:"log"`              // debugging: one line per request in the result
 	BytePositions  int      `json:"byte_positions"`   // sweep: 0 = every byte, n = n seeded positions per segment
 }
 
@@ -50,9 +54,40 @@ func writeJSON(path string, v any) {
 	}
 }
 
+var lastProgress atomic.Int64
+
+func progress() { lastProgress.Store(time.Now().UnixNano()) }
+
+// watchdog: a handler or an engine call that never returns (deadlock in the code under test)
+// must end the shard with an error, not hang the check.
+func watchdog() {
+	progress()
+	go func() {
+		for {
+			time.Sleep(5 * time.Second)
+			if time.Since(time.Unix(0, lastProgress.Load())) > 150*time.Second {
+				buf := make([]byte, 1<<16)
+				n := runtime.Stack(buf, true)
+				fmt.Fprintf(os.Stderr, "vauth: no progress for 150 s (deadlock in the code under test?)\n%s\n", firstStacks(string(buf[:n])))
+				os.Exit(4)
+			}
+		}
+	}()
+}
+
+func firstStacks(s string) string {
+	if len(s) > 6000 {
+		s = s[:6000]
+	}
+	return s
+}
+
 func main() {
-	slog.SetDefault(slog.New(slog.NewTextHandler(io.Discard, nil)))
-	log.SetOutput(io.Discard)
+	watchdog()
+	if os.Getenv("VAUTH_LOG") == "" {
+		slog.SetDefault(slog.New(slog.NewTextHandler(io.Discard, nil)))
+		log.SetOutput(io.Discard)
+	}
 	if len(os.Args) < 2 {
 		fail("usage: vauth routes|cases|hist|sweep ...")
 	}
